@@ -16,21 +16,19 @@ semantics against the real objects.
 namespace TfPwaV.C17
 open TfPwaV.Override
 
-/-- ★ (general form) For **any** assignment `fx` of patches to defect sites: after every program that only goes
-through patched sites (`covered fx p`) — whatever it nests, whichever body raises, whichever inner evaluation of
-whichever computation raises, whichever value is rejected — the observable state (stored parameter values, mask,
-chain selection, `not_full`, `mask_factor` flags, configuration, ls selection) is the state before the program.
-All environments, all states. -/
-theorem restore_covered (fx : Fix) (E : Env) (p : Prog) (hp : covered fx p = true) :
-    ∀ s : St, (exec fx E p s).1 = s := by
+/-- Everything but the stored parameter values is restored by **any** program that only goes through patched
+sites — also by programs whose bodies call `set_params` (a permanent assignment by the user code) anywhere. -/
+theorem restore_upTo (fx : Fix) (E : Env) (p : Prog) (hp : covered fx p = true) :
+    ∀ s : St, UpTo s (exec fx E p s).1 := by
   induction p with
-  | skip => intro s; rfl
-  | raise => intro s; rfl
-  | compute c fault => intro s; exact execComp_covered fx E c hp fault s
+  | skip => intro s; exact UpTo.refl s
+  | raise => intro s; exact UpTo.refl s
+  | compute c fault => intro s; exact UpTo.of_eq (execComp_covered fx E c hp fault s)
+  | setParams q => intro s; exact UpTo.setParams s _
   | block b body ih =>
     intro s
     simp only [covered, Bool.and_eq_true] at hp
-    exact execBlock_covered fx E b hp.1 _ (ih hp.2) s
+    exact execBlock_upTo fx E b hp.1 _ (ih hp.2) s
   | seq p q ihp ihq =>
     intro s
     simp only [covered, Bool.and_eq_true] at hp
@@ -39,15 +37,69 @@ theorem restore_covered (fx : Fix) (E : Env) (p : Prog) (hp : covered fx p = tru
     generalize exec fx E p s = res at h1
     obtain ⟨s1, r⟩ := res
     simp only at h1 ⊢
+    split
+    · exact h1
+    · exact UpTo.trans h1 (ihq hp.2 s1)
+
+/-- ★ (general form) For **any** assignment `fx` of patches to defect sites: after every program that only goes
+through patched sites (`covered fx p`) and whose `set_params` calls all sit inside some `amp.temp_params` block
+(`guarded p`; in particular every program without `set_params`) — whatever it nests, whichever body raises,
+whichever inner evaluation of whichever computation raises, whichever value is rejected — the observable state
+(stored parameter values, mask, chain selection, `not_full`, `mask_factor` flags, configuration, ls selection,
+list of trainable variables) is the state before the program.  All environments, all states. -/
+theorem restore_covered (fx : Fix) (E : Env) (p : Prog) (hp : covered fx p = true) (hg : guarded p = true) :
+    ∀ s : St, (exec fx E p s).1 = s := by
+  induction p with
+  | skip => intro s; rfl
+  | raise => intro s; rfl
+  | compute c fault => intro s; exact execComp_covered fx E c hp fault s
+  | setParams q => simp [guarded] at hg
+  | block b body ih =>
+    intro s
+    simp only [covered, Bool.and_eq_true] at hp
+    have habs : ∀ (hb : (∃ p, b = .absTemp p) ∨ (∃ vals, b = .absTempSeq vals)), (exec fx E (.block b body) s).1 = s := by
+      intro hb
+      have hfx : fx.absTemp = true := by
+        rcases hb with ⟨q, rfl⟩ | ⟨q, rfl⟩ <;> exact hp.1
+      exact execBlock_absTemp_full fx hfx E b hb _ (restore_upTo fx E body hp.2) s
+    cases b with
+    | absTemp q => exact habs (Or.inl ⟨q, rfl⟩)
+    | absTempSeq q => exact habs (Or.inr ⟨q, rfl⟩)
+    | vmTemp q => exact execBlock_covered fx E _ hp.1 _ (ih hp.2 hg) s
+    | maskParams q => exact execBlock_covered fx E _ hp.1 _ (ih hp.2 hg) s
+    | usedRes q => exact execBlock_covered fx E _ hp.1 _ (ih hp.2 hg) s
+    | glsOne => exact execBlock_covered fx E _ hp.1 _ (ih hp.2 hg) s
+    | tempConfig k v => exact execBlock_covered fx E _ hp.1 _ (ih hp.2 hg) s
+    | vmTempSeq q => exact execBlock_covered fx E _ hp.1 _ (ih hp.2 hg) s
+  | seq p q ihp ihq =>
+    intro s
+    simp only [covered, Bool.and_eq_true] at hp
+    simp only [guarded, Bool.and_eq_true] at hg
+    simp only [exec]
+    have h1 := ihp hp.1 hg.1 s
+    generalize exec fx E p s = res at h1
+    obtain ⟨s1, r⟩ := res
+    simp only at h1 ⊢
     subst h1
     split
     · rfl
-    · exact ihq hp.2 s1
+    · exact ihq hp.2 hg.2 s1
 
-/-- ★ `restore_all`: with all patches applied, **every** program restores the state — every nesting, every
-fault position, every environment, every state. -/
-theorem restore_all (E : Env) (p : Prog) (s : St) : (exec Fix.all E p s).1 = s :=
-  restore_covered Fix.all E p (covered_all p) s
+/-- ★ `restore_all`: with all patches applied, **every** program whose `set_params` calls sit inside an
+`amp.temp_params` block restores the state — every nesting (dict and sequence forms of `temp_params` included),
+every fault position, every environment, every state. -/
+theorem restore_all (E : Env) (p : Prog) (hg : guarded p = true) (s : St) : (exec Fix.all E p s).1 = s :=
+  restore_covered Fix.all E p (covered_all p) hg s
+
+/-- the language of round 1 (no `set_params` in a body): no side condition at all -/
+theorem restore_all_noSet (E : Env) (p : Prog) (hn : noSet p = true) (s : St) : (exec Fix.all E p s).1 = s :=
+  restore_all E p (guarded_of_noSet p hn) s
+
+/-- `guarded` is satisfiable by a program that does call `set_params`, nested under a sequence-form and a dict-form
+`temp_params` -/
+example : guarded (.block (.absTempSeq [.good (.lit 1), .good (.lit 2)]) (.block (.maskParams [(0, .lit 0)])
+    (.block (.absTemp [(1, .good (.lit 3))]) (.seq (.setParams [(0, .good (.lit 4)), (1, .good (.lit 5))]) .raise)))) = true := by
+  decide
 
 /-- the hypothesis of `restore_covered` is satisfiable by a non-trivial program on a partially patched tree
 (only fix_C17_used_chains.diff and fix_C17_variable_contexts.diff applied) -/
@@ -56,14 +108,15 @@ example : covered { Fix.none with usedRes := true, vmMask := true, vmTemp := tru
       (.seq (.compute (.pw [[.idx 1]]) (some 0)) (.compute (.factorIter 2) (some 3))))) = true := by decide
 
 /-- Hence anything computed from the observable state — in particular the density of any event — is unchanged. -/
-theorem density_unchanged {Event D : Type} (density : St → Event → D) (E : Env) (p : Prog) (s : St) (x : Event) :
+theorem density_unchanged {Event D : Type} (density : St → Event → D) (E : Env) (p : Prog) (hg : guarded p = true)
+    (s : St) (x : Event) :
     density (exec Fix.all E p s).1 x = density s x := by
-  rw [restore_all]
+  rw [restore_all E p hg]
 
 /-- `applications.fit_fractions` (a `temp_params` block around `cal_fitfractions` / `FitFractions.integral`). -/
 theorem restore_fit_fractions (E : Env) (params : List (Nat × PV)) (nb : Nat) (res : List Sel) (new : Bool)
     (fault : Option Nat) (s : St) : (exec Fix.all E (fitFractions params nb res new fault) s).1 = s :=
-  restore_all E _ s
+  restore_all E _ (by cases new <;> rfl) s
 
 /-! ## a concrete model: 3 chains, one resonance each; 4 variables, variable 1 bounded -/
 
@@ -75,7 +128,7 @@ def E0 : Env :=
 def s0 : St :=
   { params := [.lit 10, .lit 11, .lit 12, .lit 13], mask := [], chainsIdx := [0, 1, 2], notFull := false,
     maskFactor := [false, false, false], config := [.lit 20, .lit 21],
-    ls := [[0, 1], [0, 1, 2], [0, 1, 2], [0, 1], [0, 1, 2], [0, 1]] }
+    ls := [[0, 1], [0, 1, 2], [0, 1, 2], [0, 1], [0, 1, 2], [0, 1]], trainable := [0, 2, 3] }
 
 /-- a selection of two chains made by the user before the program -/
 def s1 : St := { s0 with chainsIdx := [2, 0], notFull := true }
